@@ -17,6 +17,7 @@ import Driver.Resource
 import Driver.SqliteConn
 import Driver.StateStore
 import Driver.Timers
+import Driver.Journal
 
 def main (args : List String) : IO UInt32 := do
   let stdin ← IO.getStdin
@@ -39,4 +40,5 @@ def main (args : List String) : IO UInt32 := do
   | ["sqliteconn"] => Drv.loop stdin Drv.SqliteConn.step {}; return 0
   | ["statestore"] => Drv.loop stdin Drv.StateStore.step {}; return 0
   | ["timers"] => Drv.loop stdin Drv.Timers.step {}; return 0
+  | ["journal"] => Drv.loop stdin Drv.Journal.step {}; return 0
   | _ => IO.eprintln "usage: wfdriver <model>"; return 2
